@@ -1109,7 +1109,10 @@ def check_c16(prop, tier, replay, selftest):
         r2 = tlc_mc("Server", "Server_c16_strict.cfg", workers=8, timeout=600)
         print("SELFTEST C16 model: shipped continuation %s the forever-running task; strict results %s the stale write" %
               ("rediscovers" if r1["violation"] else "MISSES", "rediscovers" if r2["violation"] else "MISSES"))
-        if not (r1["violation"] and r2["violation"]):
+        r3 = tlc_mc("Server", "Server_c16_lost.cfg", workers=8, timeout=600)
+        print("SELFTEST C16 model: a rename while a task runs %s the task's result (third race shape, model only)" %
+              ("loses" if r3["violation"] and "NoLostResult" in r3["violation"] else "DOES NOT lose"))
+        if not (r1["violation"] and r2["violation"] and r3["violation"]):
             return 2
     def corrupt(rec):
         if rec.get("kind") != "http" or rec.get("op") != "get" or rec.get("status") != 200:
